@@ -27,6 +27,7 @@
 #include <errno.h>
 #include "kx.h"
 #include "sched_inputs.h"
+#include "c10snap.h"
 #if defined(HAVE_OPENMP) && !defined(NO_VGOMP)
 #define USE_VGOMP 1
 #endif
@@ -66,10 +67,6 @@ static int yield_mask = 0;
 static int lazy_idle = 1;
 static int in_run = 0;
 
-/* C10 snapshots: for node c, the gap vectors of its members at MERGE_END */
-struct snap { int c; int nmem; int* mem; int** gaps; int* len; };
-static struct snap* SNAP = NULL;
-static int nsnap = 0, capsnap = 0;
 static int tree_tasks = 0;
 static int tree_abc[4096][3];
 
@@ -104,46 +101,6 @@ static void maybe_yield(int ev)
 static int self_id(void) { return 0; }
 static void maybe_yield(int ev) { (void)ev; }
 #endif
-
-static void take_snapshot(int c, const struct msa* msa)
-{
-        struct snap* s;
-        int i, j;
-        if(nsnap == capsnap){
-                capsnap = capsnap ? capsnap * 2 : 64;
-                SNAP = realloc(SNAP, sizeof(*SNAP) * (size_t)capsnap);
-        }
-        s = &SNAP[nsnap++];
-        s->c = c;
-        s->nmem = msa->nsip[c];
-        s->mem = malloc(sizeof(int) * (size_t)s->nmem);
-        s->gaps = malloc(sizeof(int*) * (size_t)s->nmem);
-        s->len = malloc(sizeof(int) * (size_t)s->nmem);
-        for(i = 0; i < s->nmem; i++){
-                int id = msa->sip[c][i];
-                struct msa_seq* q = msa->sequences[id];
-                s->mem[i] = id;
-                s->len[i] = q->len;
-                s->gaps[i] = malloc(sizeof(int) * (size_t)(q->len + 1));
-                for(j = 0; j <= q->len; j++){
-                        s->gaps[i][j] = q->gaps[j];
-                }
-        }
-}
-
-static void free_snapshots(void)
-{
-        int i, k;
-        for(k = 0; k < nsnap; k++){
-                for(i = 0; i < SNAP[k].nmem; i++){
-                        free(SNAP[k].gaps[i]);
-                }
-                free(SNAP[k].gaps);
-                free(SNAP[k].mem);
-                free(SNAP[k].len);
-        }
-        nsnap = 0;
-}
 
 static void hook(int ev, int a, int b, int c, const void* p, const void* q)
 {
@@ -276,104 +233,6 @@ static const char* monitor(int numseq, int* merge_overlap, int* kernel_overlap)
                         break;
                 }
         }
-        return NULL;
-}
-
-/* C10: final rows of a node's members, all-gap columns (within the group) removed, must equal the snapshot rows */
-static const char* check_c10(struct msa* m, const struct kx_set* in, long* regroup)
-{
-        static char msg[256];
-        int k, i, j;
-        /* m->sequences is in rank (input) order after kalign_run; snapshot member ids refer to the canonical
-           (sorted) order.  Map through the residue strings is ambiguous with duplicates, so map by pointer:
-           we recorded ids in sorted order; recover sorted order by sorting on (len desc, name) as kalign did. */
-        int n = m->numseq;
-        int* sorted_to_final = malloc(sizeof(int) * (size_t)n);
-        {
-                /* reproduce msa_sort_len_name on the final objects: len desc then name */
-                int* idx = malloc(sizeof(int) * (size_t)n);
-                for(i = 0; i < n; i++){
-                        idx[i] = i;
-                }
-                for(i = 1; i < n; i++){
-                        int v = idx[i];
-                        j = i - 1;
-                        while(j >= 0){
-                                struct msa_seq* A = m->sequences[idx[j]];
-                                struct msa_seq* B = m->sequences[v];
-                                int gt = (A->len < B->len) || (A->len == B->len && strncmp(A->name, B->name, MSA_NAME_LEN) > 0);
-                                if(!gt){
-                                        break;
-                                }
-                                idx[j + 1] = idx[j];
-                                j--;
-                        }
-                        idx[j + 1] = v;
-                }
-                for(i = 0; i < n; i++){
-                        sorted_to_final[i] = idx[i];
-                }
-                free(idx);
-        }
-        (void)in;
-        for(k = 0; k < nsnap; k++){
-                struct snap* s = &SNAP[k];
-                int alen = m->alnlen;
-                char* keep = calloc((size_t)alen + 1, 1);
-                int had_gaps = 0;
-                for(i = 0; i < s->nmem; i++){
-                        const char* row = m->sequences[sorted_to_final[s->mem[i]]]->seq;
-                        for(j = 0; j < alen; j++){
-                                if(row[j] != '-'){
-                                        keep[j] = 1;
-                                }
-                        }
-                }
-                for(i = 0; i < s->nmem; i++){
-                        struct msa_seq* q = m->sequences[sorted_to_final[s->mem[i]]];
-                        const char* row = q->seq;
-                        /* projected gap vector */
-                        int pos = 0, g = 0;
-                        if(q->len != s->len[i]){
-                                snprintf(msg, sizeof msg, "node %d: member length changed", s->c);
-                                free(keep); free(sorted_to_final);
-                                return msg;
-                        }
-                        for(j = 0; j < alen; j++){
-                                if(!keep[j]){
-                                        continue;
-                                }
-                                if(row[j] == '-'){
-                                        g++;
-                                }else{
-                                        if(g != s->gaps[i][pos]){
-                                                snprintf(msg, sizeof msg, "node %d (%d members): member %d has %d gaps before residue %d in the final alignment's projection, %d when the node was completed",
-                                                         s->c, s->nmem, s->mem[i], g, pos, s->gaps[i][pos]);
-                                                free(keep); free(sorted_to_final);
-                                                return msg;
-                                        }
-                                        if(g){
-                                                had_gaps = 1;
-                                        }
-                                        g = 0;
-                                        pos++;
-                                }
-                        }
-                        if(g != s->gaps[i][pos]){
-                                snprintf(msg, sizeof msg, "node %d: member %d has %d trailing gaps in the projection, %d at completion", s->c, s->mem[i], g, s->gaps[i][pos]);
-                                free(keep); free(sorted_to_final);
-                                return msg;
-                        }
-                        if(g){
-                                had_gaps = 1;
-                        }
-                }
-                if(had_gaps && s->nmem < n){
-                        (*regroup)++;
-                }
-                free(keep);
-        }
-        free(sorted_to_final);
         return NULL;
 }
 
